@@ -44,6 +44,7 @@ void run_case(const uint8_t* data, size_t size, vf::Case& c) {
   uint16_t meta_pos = bs.u16();
   c.hash = vf::hash_case(uc);
   if (c.want_render) c.render = vf::render_case(uc);
+  vf::warm_siblings(uc.input, uc.has_base ? &uc.base : nullptr, c.hash);  // a related input is parsed first (results ignored)
 
   ref::Url rbase, rurl;
   ada::url ubase;
